@@ -34,6 +34,15 @@ OUT_OF_SCOPE = {
     "BB": "regex wants a non-zero first digit, renderer zero-pads ids below 10", "BBB": "same, ids below 100", "BBBB": "same, ids below 1000",
     "BBBBB": "same, ids below 10^4", "BBBBBB": "same, ids below 10^5", "BBBBBBB": "same, ids below 10^6",
 }
+# the pinned legacy recognisers (non-composite parts); \d is read as ASCII digits for the lower bound and as any decimal digit for the upper
+V1_PART_REF = {
+    'year': '\\d{4}', 'month': '(?:0[0-9]|1[0-2])', 'month_short': '(?:1[0-2]|[1-9])', 'build_no': '\\d{4,}', 'pep440_tag': '(?:a|b|dev|rc|post)?\\d*',
+    'tag': '(?:alpha|beta|dev|rc|post|final)', 'yy': '\\d{2}', 'yyyy': '\\d{4}', 'quarter': '[1-4]', 'iso_week': '(?:[0-4]\\d|5[0-3])', 'us_week': '(?:[0-4]\\d|5[0-3])',
+    'dom': '(0[1-9]|[1-2][0-9]|3[0-1])', 'dom_short': '([1-9]|[1-2][0-9]|3[0-1])', 'doy': '(?:[0-2]\\d\\d|3[0-5][0-9]|36[0-6])', 'doy_short': '(?:[0-2]\\d\\d|3[0-5][0-9]|36[0-6])',
+    'MAJOR': '\\d+', 'MINOR': '\\d+', 'MM': '\\d{2,}', 'MMM': '\\d{3,}', 'MMMM': '\\d{4,}', 'MMMMM': '\\d{5,}', 'PATCH': '\\d+', 'PP': '\\d{2,}', 'PPP': '\\d{3,}',
+    'PPPP': '\\d{4,}', 'PPPPP': '\\d{5,}', 'bid': '\\d{4,}', 'BID': '[1-9]\\d*', 'BB': '[1-9]\\d{1,}', 'BBB': '[1-9]\\d{2,}', 'BBBB': '[1-9]\\d{3,}',
+    'BBBBB': '[1-9]\\d{4,}', 'BBBBBB': '[1-9]\\d{5,}', 'BBBBBBB': '[1-9]\\d{6,}',
+}
 V1_PART_FIELDS = {'year': 'year', 'month': 'month', 'month_short': 'month', 'pep440_tag': 'tag', 'tag': 'tag', 'yy': 'year', 'yyyy': 'year', 'quarter': 'quarter',
                   'iso_week': 'iso_week', 'us_week': 'us_week', 'dom': 'dom', 'doy': 'doy', 'dom_short': 'dom', 'doy_short': 'doy', 'MAJOR': 'major', 'MINOR': 'minor',
                   'MM': 'minor', 'MMM': 'minor', 'MMMM': 'minor', 'MMMMM': 'minor', 'PP': 'patch', 'PPP': 'patch', 'PPPP': 'patch', 'PPPPP': 'patch', 'PATCH': 'patch',
@@ -420,8 +429,10 @@ def run(ctx) -> None:
         ctx.check("R1", a_ == d_ and all(x == d_ for x in b_), f"legacy field {f_}: cal_info and the reader both use %{d_} (decimal)",
                   f"v1version: calendar field '{f_}' is not read from %{d_} in base 10 by both producers",
                   f"cal_info: {a_}, reader: {b_}: a rendered {{{f_}}} does not read back to the value it was rendered from", loc=ci1.loc(), witness={"field": f_, "cal_info": a_, "reader": b_})
-    from checks.c02 import parsed_quarter_rule
+    from checks.c02 import parsed_quarter_rule, part_language_band_rule
     parsed_quarter_rule(ctx, "R1", "v1version._parse_field_values")
+    import re as _re20
+    part_language_band_rule(ctx, "R1", "v1patterns", V1_PART_REF, V1_PART_REF, min_flags=_re20.ASCII)
     # the reader must not reject a value the renderer can print: no range test inside the field parser may be
     # satisfiable by a value of the field's own domain
     cal = formats.calendar_domains(prog, "v1version.cal_info", (2000, 2099))
